@@ -24,6 +24,7 @@ RULE = ('case = a structural block whose internal wires are all driven: every st
 ASSUMPTIONS = [
     'termination is checked as bounded safety: a deterministic budget of Python function calls (sys.setprofile counter), not a wall clock',
     'nets are treated as undirected edges between symbols when connectivity is judged (feedback paths are drawn against the flow)',
+    'the clause "no pin of any other wire" is also read geometrically: no segment of a routed path may pass through the pin position of another wire (two shapes occur on the unchanged tree and are known findings; every other shape is reported)',
     'blocks with undriven inputs are outside the statement ("whose internal wires are all driven") and are only required not to crash',
 ]
 
@@ -141,6 +142,30 @@ def check(obj, sch):
             rsym = sym_of[id(owner)]
             if not any(n.sink is rsym and n.sinkPort is rport for n in nets):
                 return ('reader_pin_missing', 'no net of wire {} ends at reader pin {}.{}'.format(w.name, getattr(owner, 'name', '?'), rport.name))
+    # (3b) geometry: the drawn path of a net touches no pin of another wire
+    pins = []
+    for n in sch.nets:
+        if n.sourcePort is not None and not is_virtual(n.source):
+            pins.append((n.getStartPoint(), n.wire, n.source.name + '.' + getattr(n.sourcePort, 'name', '?')))
+        if n.sinkPort is not None and not is_virtual(n.sink):
+            pins.append((n.getEndPoint(), n.wire, n.sink.name + '.' + getattr(n.sinkPort, 'name', '?')))
+    for n in sch.nets:
+        if n.x is None or len(n.x) < 2:
+            continue
+        for (px, py), w, pname in pins:
+            if w is n.wire:
+                continue
+            for i in range(len(n.x) - 1):
+                x0, y0, x1, y1 = n.x[i], n.y[i], n.x[i + 1], n.y[i + 1]
+                if min(x0, x1) <= px <= max(x0, x1) and min(y0, y1) <= py <= max(y0, y1):
+                    # on the bounding box of the segment: exact for axis-parallel segments, test collinearity otherwise
+                    if (x1 - x0) * (py - y0) == (y1 - y0) * (px - x0):
+                        kind = 'marker_path' if (is_virtual(n.source) or is_virtual(n.sink)) else 'direct_path'
+                        seg = 'vertical' if x0 == x1 else ('horizontal' if y0 == y1 else 'diagonal')
+                        at_end = (px, py) in ((n.x[0], n.y[0]), (n.x[-1], n.y[-1]))
+                        return ('foreign_pin_touched:{}:{}:{}'.format(kind, seg, 'at_end' if at_end else 'mid'),
+                                'the drawn path of wire {} runs through pin {} of wire {} at {}'.format(
+                            n.wire.name, pname, w.name, (px, py)))
     # (4) routed paths end on the pins
     for n in sch.nets:
         if is_virtual(n.source) or is_virtual(n.sink):
